@@ -1075,6 +1075,7 @@ func directedStaged(c *ctx) {
 	}
 	c.stat("staged_policies", n)
 	directedPatterns(c)
+	directedNameFolding(c)
 	switch c.prop {
 	case "C03", "C04", "C07", "C13", "C17":
 		directedSchemes(c, c.san)
@@ -1283,4 +1284,48 @@ func directedSchemes(c *ctx, emit func(pid int, pol *bluemonday.Policy, in []byt
 		}
 	}
 	c.stat("scheme_sequences", len(seqs))
+}
+
+// directedNameFolding: element and attribute names that a too-generous normalisation would turn into
+// names the policy knows — invisible format characters inside the name (soft hyphen, zero-width
+// space / joiners, BOM), and letters outside ASCII whose lower or folded form is an ASCII letter
+// (U+0130 → i, U+212A → k, U+017F → s).  The tokenizer lower-cases ASCII only and keeps the rest.
+func directedNameFolding(c *ctx) {
+	inv := []string{"\u00ad", "\u200b", "\u200c", "\u200d", "\ufeff", "\u2060"}
+	var els []string
+	for _, base := range []string{"script", "style", "title", "b", "div", "link", "iframe"} {
+		for i, z := range inv {
+			k := (i % (len(base))) + 0
+			els = append(els, base[:k]+z+base[k:], base+z)
+		}
+	}
+	els = append(els, "dİv", "lİnk", "linK", "marK", "ſcript", "ſtyle", "tİtle", "scrİpt", "SCRİPT", "K", "İ")
+	attrs := []string{"cİte", "tİtle", "İd", "wİdth", "hreſ", "ſrc", "ſtyle", "st\u00adyle", "hr\u200bef", "onclİck", "onKeydown", "TİTLE", "K", "cite\u00ad"}
+	policies := [][]*bmx.Op{
+		{{Kind: "AE", Names: []string{"b", "div", "title", "p"}}, {Kind: "AA", Names: []string{"id", "title", "cite", "href", "src", "width", "style"}, Scope: "G"}, {Kind: "US", Names: []string{"https"}}, {Kind: "AS", Names: []string{"color"}, Scope: "G"}},
+		{{Kind: "UN", Flag: true}, {Kind: "AE", Names: []string{"script", "style", "b", "link"}}, {Kind: "AA", Names: []string{"id", "href"}, Scope: "G"}},
+		{{Kind: "AEM", Re: bmx.NewRE(`^(div|link|mark|b)$`)}, {Kind: "AA", Names: []string{"id", "title"}, Scope: "M", ScopeRe: bmx.NewRE(`^(div|b)$`)}},
+	}
+	type pp struct {
+		pid int
+		pol *bluemonday.Policy
+	}
+	var pols []pp
+	for _, ops := range policies {
+		pid, pol := c.policy(ops)
+		pols = append(pols, pp{pid, pol})
+	}
+	for _, name := range []string{"@UGC", "@STRICT"} {
+		pid, pol := c.shipped(name)
+		pols = append(pols, pp{pid, pol})
+	}
+	for _, q := range pols {
+		for _, e := range els {
+			c.san(q.pid, q.pol, []byte("a<"+e+" id=\"1\">text &lt;img onerror=x&gt; <b>in</b></"+e+">after"))
+			c.san(q.pid, q.pol, []byte("<"+e+"/>x<"+strings.ToUpper(e)+">y"))
+		}
+		for _, a := range attrs {
+			c.san(q.pid, q.pol, []byte("<b "+a+"=\"javascript:alert(1)\">t</b><blockquote "+a+"=\"data:text/html,x\" cite=\"https://a.b/\">q</blockquote><div "+a+"=\"v\" id=\"1\" "+strings.ToUpper(a)+"=\"w\">d</div>"))
+		}
+	}
 }
